@@ -55,6 +55,10 @@ def intCart1Divergence (mth : Method) (dx : K) (a : Arr K) (n : Nat) : K :=
 def intCart2Divergence (mth : Method) (dx dy : K) (a : Arr K) (n m : Nat) : K :=
   sumTo (fun i => sumTo (fun j => dx * dy * cartDivergence mth [dx, dy] a [] [(i:Int), (j:Int)]) m) n
 
+def intCart3Divergence (mth : Method) (dx dy dz : K) (a : Arr K) (n m l : Nat) : K :=
+  sumTo (fun i => sumTo (fun j => sumTo (fun k =>
+    dx * dy * dz * cartDivergence mth [dx, dy, dz] a [] [(i:Int), (j:Int), (k:Int)]) l) m) n
+
 def intSphDivergence (conservative : Bool) (mth : Method) (r : Int → K) (dr : K) (a : Arr K) (n : Nat) : K :=
   sumTo (fun i => volSph r dr i * sphDivergence conservative mth r dr a i) n
 
